@@ -617,7 +617,7 @@ ASMJIT_FAVOR_SPEED Error Assembler::_emit(InstId inst_id, const Operand_& o0, co
     }
 
     // Grow request, happens rarely.
-    err = writer.ensure_space(this, 16);
+    err = writer.try_ensure_space(this, 16);
     if (ASMJIT_UNLIKELY(err != Error::kOk)) {
       goto Failed;
     }
